@@ -20,7 +20,11 @@ Leaves == {
   [t |-> "model", home |-> H("M", <<"Outer", "Inner">>), fields |-> << [name |-> "x", v |-> P("int:5"), dflt |-> P("none")] >>],
   \* qualified names three levels deep: the import line must still bind the TOP-LEVEL class
   [t |-> "enum", home |-> H("M", <<"Outer", "Mid", "Tint">>), member |-> "PALE"],
-  [t |-> "model", home |-> H("M", <<"Outer", "Mid", "Deep">>), fields |-> << [name |-> "x", v |-> P("int:5"), dflt |-> P("none")] >>]
+  [t |-> "model", home |-> H("M", <<"Outer", "Mid", "Deep">>), fields |-> << [name |-> "x", v |-> P("int:5"), dflt |-> P("none")] >>],
+  \* a class whose field b has ANOTHER default than Holder's field b: holding Holder's default, its own, a third value
+  [t |-> "model", home |-> H("M", <<"Holder2">>), fields |-> << [name |-> "b", v |-> P("none"), dflt |-> P("int:5")] >>],
+  [t |-> "model", home |-> H("M", <<"Holder2">>), fields |-> << [name |-> "b", v |-> P("int:5"), dflt |-> P("int:5")] >>],
+  [t |-> "model", home |-> H("M", <<"Holder2">>), fields |-> << [name |-> "b", v |-> P("str:quote'\"\\n"), dflt |-> P("int:5")] >>]
 }
 Seqs == {[t |-> "seq", kind |-> k, items |-> it] : k \in {"list", "tuple"}, it \in {<<>>} \cup {<<a>> : a \in Leaves} \cup {<<P("int:5"), P("int:6")>>}}
         \cup
